@@ -472,7 +472,7 @@ impl Prop for C17 {
         if c.hash_seed != 0 { out.push(HostileCase { hash_seed: 0, ..c.clone() }); }
         out
     }
-    fn rule(&self) -> String { "A case is one session: a generated update history builds a database state (in a third of the cases its prefix table holds namespaces registered through the Turtle loader or the prefix API, half of those hostile: escape-like sequences next to multi-byte characters, surrogates, empty), then a hostile client sends 8-38 requests (valid SELECTs incl. MIN/MAX/SUM/AVG over NaN/inf lexical forms, every update form and the legacy aliases, any of them optionally behind a RULE / RETRIEVE / REGISTER / ML.PREDICT extension clause, and mutations of those: deletion/duplication/truncation, 2-4-byte characters before/inside/after tokens, unbalanced braces and quotes, NULs, very long tokens, extreme numbers in place of number tokens and LIMITs up to usize::MAX) through execute_sparql_query, execute_query_rayon_parallel2_volcano (SELECT only), execute_sparql_update, SparqlDatabase::execute_update, handle_update and the HTTP GET query adapter. After every request: query paths leave quad ids and catalog unchanged, update syntax is refused there, a failed update leaves the dataset unchanged, no entry point unwinds. Distinct = hash of the request list (every case is counted non-trivial when it has >= 8 requests). Sessions run under simulated pools of 1-300 workers, a fifth with 60-150 extra triples; the database prefix table may hold hostile namespaces; the known-malformed corpus goes through every update entry point (must fail); form / URL parameters get hostile percent escapes; extreme numbers replace number tokens.".into() }
+    fn rule(&self) -> String { "A case is one session: a generated update history builds a database state (in a third of the cases its prefix table holds namespaces registered through the Turtle loader or the prefix API, half of those hostile: escape-like sequences next to multi-byte characters, surrogates, empty), then a hostile client sends 8-38 requests (valid SELECTs incl. MIN/MAX/SUM/AVG over NaN/inf lexical forms, every update form and the legacy aliases, any of them optionally behind a RULE / RETRIEVE / REGISTER / ML.PREDICT extension clause, and mutations of those: deletion/duplication/truncation, 2-4-byte characters before/inside/after tokens, unbalanced braces and quotes, NULs, very long tokens, extreme numbers in place of number tokens and LIMITs up to usize::MAX) through execute_sparql_query, execute_query_rayon_parallel2_volcano (SELECT only), execute_sparql_update, SparqlDatabase::execute_update, handle_update and the HTTP GET query adapter. After every request: query paths leave quad ids and catalog unchanged, update syntax is refused there, a failed update leaves the dataset unchanged, no entry point unwinds. Distinct = hash of the request list (every case is counted non-trivial when it has >= 8 requests). Sessions run under simulated pools of 1-300 workers, a fifth with 60-150 extra triples; the database prefix table may hold hostile namespaces; the known-malformed corpus goes through every update entry point (must fail); form / URL parameters get hostile percent escapes; extreme numbers replace number tokens. MODEL / NEURAL RELATION / TRAIN requests are sent with a nested QUERY text that is an update or a SELECT without rows (no training runs).".into() }
     fn assumptions(&self) -> Vec<String> { vec!["RULE / RETRIEVE / REGISTER / ML.PREDICT clauses are in the corpus in front of SELECTs and updates (none of the ten entry points executes them); MODEL / NEURAL RELATION / TRAIN declarations are sent only with a QUERY block that holds update text or a SELECT without rows, so no training ever runs".into(), "this is seeded mutation of requests inside a stateful session; the simulator's contribution is the state dimension and the per-request whole-state invariant".into()] }
     fn real_vs_stub(&self) -> serde_json::Value { serde_json::json!({"real": ["execute_sparql_query", "execute_query_rayon_parallel2_volcano", "execute_sparql_update", "SparqlDatabase::{execute_update, handle_update, handle_http_request}", "parser", "error_handler"], "simulated": ["the client", "hash keys"], "not_run": ["TCP sockets (run_server)"]}) }
 }
